@@ -80,6 +80,28 @@ def main(tier, rep):
                             "ref": {"cmds": a["cmds"], "res": a["res"], "conn": a["conn"]},
                             "got": {"cmds": b["cmds"], "res": b["res"], "conn": b["conn"]},
                             "cfg": {"prefix": prefix.decode(), "dn": dn, **{k: (v if isinstance(v, (bool, int, str)) else str(v)) for k, v in kw.items()}}})
+    # construction with the shared options spelled in unusual ways (str prefixes, non-ASCII prefixes): the wrapper is built
+    # or refused exactly like the plain Client, and a first exchange sends the same bytes
+    def construct(kind, prefix, uni, enc):
+        try:
+            net, srv, cl = make(kind, False, prefix, dict(allow_unicode_keys=uni, encoding=enc))
+        except Exception as e:   # noqa
+            return {"cmds": [], "res": {"t": "exc", "x": type(e).__name__}, "conn": {"io": [], "est": []}}
+        net.begin_call(1)
+        try:
+            r = cl.set("k", b"v", noreply=False)
+            res = {"t": "bool", "b": bool(r)}
+        except Exception as e:   # noqa
+            res = {"t": "exc", "x": type(e).__name__}
+        return {"cmds": [CL.canon_cmd(c) for c in net.sent_cmds], "res": res, "conn": {"io": [], "est": []}}
+    for prefix in ("pfx:", "pr\u00e9fix:", "\u20acuro:", b"pr\xc3\xa9:", b"", "p x:"):
+        for uni in (False, True):
+            for enc in ("ascii", "utf-8"):
+                ref = construct("client", prefix, uni, enc)
+                for stack in ("pooled", "hash", "hashpooled", "retrying"):
+                    evs.append({"e": "cmp", "op": "construct", "attempts": 1, "stack": stack, "ref": ref,
+                                "got": construct(stack, prefix, uni, enc),
+                                "cfg": {"prefix": repr(prefix), "allow_unicode_keys": uni, "encoding": enc}})
     B = 400
     traces = [{"h": {"maxrej": B + 1}, "ev": evs[i:i + B]} for i in range(0, len(evs), B)]
     acc, rej, st, _ = tlc.validate_traces("WrapTrace", traces, chunk=60)
